@@ -144,12 +144,22 @@ def filterSkip (st : SkipState) (n : StepName) (on : Bool) : Res :=
       | .ret b2 => ⟨r2.st, .ret ((true && b1) && b2)⟩
   | .unknown => ⟨st, .ret false⟩
 
+/-- `getStateModel().exogenous_model().skip(what_step, status)` called directly: the accessor
+    throws when no model is attached; otherwise `ExogenousModel::skip` (only the name
+    "exogenous" is known, every other name — including "state", "prediction", "all" — returns
+    `false` and writes nothing). -/
+def exoModelSkip (st : SkipState) (n : StepName) (on : Bool) : Res :=
+  match st.exo with
+  | none => ⟨st, .thrown⟩
+  | some e => ⟨{ st with exo := some (exoSkip e n on).1 }, .ret (exoSkip e n on).2⟩
+
 /-- Where a command enters the chain. -/
 inductive Level
   | filter          -- GaussianFilter::skip / ParticleFilter::skip
   | prediction      -- prediction().skip(name, on)
   | correction      -- correction().skip(on)            (the name is ignored)
   | stateModel      -- prediction().getStateModel().skip(name, on)   (bypasses the bookkeeping of `pred`)
+  | exoModel        -- prediction().getStateModel().exogenous_model().skip(name, on)   (the accessor throws when absent)
   deriving DecidableEq, Repr, Inhabited
 
 structure Cmd where
@@ -164,6 +174,7 @@ def skipCmd (st : SkipState) (c : Cmd) : Res :=
   | .prediction => predictionSkip st c.name c.on
   | .correction => correctionSkip st c.on
   | .stateModel => stateModelSkip st c.name c.on
+  | .exoModel => exoModelSkip st c.name c.on
 
 /-- **Hand-over**: the prediction and correction objects are move-constructed into new objects
     held by a new filter.  Every move constructor in the hierarchy moves its base first
@@ -294,5 +305,125 @@ def Spec.outcome (s : Spec) (n : StepName) : Outcome :=
   | _ => .ret true
 
 def filterCmds (cs : List (StepName × Bool)) : List Cmd := cs.map fun c => ⟨.filter, c.1, c.2⟩
+
+/-! ### Configuration changed after construction
+
+`prediction().getStateModel().add_exogenous_model(std::unique_ptr<ExogenousModel>)` may be called
+at any time: it replaces `exogenous_model_` by a freshly constructed model (whose `skip_` is
+`false`) and touches no other flag — in particular not the aggregate `skip_` of the prediction,
+which `skip()` recomputes from the models at its *next* 'state' / 'exogenous' / 'prediction'
+command (`have_exogenous_model()` is consulted at every call, nothing is latched). -/
+def attachExo (st : SkipState) : SkipState := { st with exo := some false }
+
+/-! ### The filter as a state machine over (flags, belief): commands interleaved with steps
+
+`GaussianFilter` / `ParticleFilter` own the two steps; a history is any list of skip commands
+(at any level), `predict` / `correct` calls on the running belief, hand-overs and attachments.
+The numeric content of the steps is an arbitrary parameter (`Sem`): what the state model
+produces for each branch of `LinearStateModel::propagate` and what `correctStep` does — both
+may depend on a clock (time-varying collaborators), which every `predict` / `correct` call
+advances whether or not it is skipped. -/
+
+structure Sem (β : Type) where
+  prop : Nat → Base → β → β      -- `predictStep` when the state model took this branch, at this time
+  corr : Nat → β → β             -- `correctStep` at this time
+
+structure FilterSt (β : Type) where
+  flags : SkipState
+  belief : β
+  clock : Nat
+  deriving Repr
+
+inductive Op
+  | cmd (c : Cmd)
+  | predict
+  | correct
+  | handOver
+  | attach
+  deriving DecidableEq, Repr, Inhabited
+
+variable {β : Type}
+
+/-- `predict(prev, pred)` on the running belief: `pred = prev` on the two skip tests, otherwise
+    whatever `predictStep` computes with the branch the state model takes. -/
+def predictBelief (sem : Sem β) (k : PredKind) (st : SkipState) (t : Nat) (b : β) : β :=
+  match predPath k st with
+  | .atPredict => b
+  | .atPredictStep => b
+  | .ran base => sem.prop t base b
+
+/-- `correct(pred, corr)` on the running belief. -/
+def correctBelief (sem : Sem β) (st : SkipState) (t : Nat) (b : β) : β :=
+  if corrRuns st then sem.corr t b else b
+
+def stepOp (sem : Sem β) (k : PredKind) (s : FilterSt β) : Op → FilterSt β
+  | .cmd c => { s with flags := (skipCmd s.flags c).st }
+  | .predict => { s with belief := predictBelief sem k s.flags s.clock s.belief, clock := s.clock + 1 }
+  | .correct => { s with belief := correctBelief sem s.flags s.clock s.belief, clock := s.clock + 1 }
+  | .handOver => { s with flags := handOver s.flags }
+  | .attach => { s with flags := attachExo s.flags }
+
+def runOps (sem : Sem β) (k : PredKind) : FilterSt β → List Op → FilterSt β
+  | s, [] => s
+  | s, o :: os => runOps sem k (stepOp sem k s o) os
+
+/-! #### Specification side of the same machine: a table indexed by the three switches -/
+
+/-- What `predict` does, read off the switches alone (no dispatch chain, no aggregate flag):
+    the recorded behaviour in the partial state "state model skipped, exogenous model active"
+    is part of the table (`DrawParticles` applies the exogenous part, the others return their input). -/
+def Spec.predBehaviour (s : Spec) (k : PredKind) : Obs :=
+  let exoActive := s.hasExo && !s.exo
+  if s.state then
+    (if exoActive then (match k with
+                        | .draw => .step .exoOnly
+                        | _ => .identity)
+     else .identity)
+  else if exoActive then .step .fxExo else .step .fx
+
+/-- what an observed behaviour does to the belief -/
+def Obs.act (o : Obs) (sem : Sem β) (t : Nat) (b : β) : β :=
+  match o with
+  | .identity => b
+  | .step base => sem.prop t base b
+
+structure SpecSt (β : Type) where
+  spec : Spec
+  belief : β
+  clock : Nat
+
+/-- Operations given through the filter (the property's histories). -/
+inductive SOp
+  | cmd (n : StepName) (on : Bool)
+  | predict
+  | correct
+  | handOver
+  deriving DecidableEq, Repr, Inhabited
+
+def SOp.toOp : SOp → Op
+  | .cmd n on => .cmd ⟨.filter, n, on⟩
+  | .predict => .predict
+  | .correct => .correct
+  | .handOver => .handOver
+
+def Spec.stepOp (sem : Sem β) (k : PredKind) (s : SpecSt β) : SOp → SpecSt β
+  | .cmd n on => { s with spec := s.spec.apply n on }
+  | .predict =>
+    { s with belief := (s.spec.predBehaviour k).act sem s.clock s.belief, clock := s.clock + 1 }
+  | .correct => { s with belief := if s.spec.corr then s.belief else sem.corr s.clock s.belief, clock := s.clock + 1 }
+  | .handOver => s
+
+def Spec.runOps (sem : Sem β) (k : PredKind) : SpecSt β → List SOp → SpecSt β
+  | s, [] => s
+  | s, o :: os => Spec.runOps sem k (Spec.stepOp sem k s o) os
+
+def SpecSt.toFilter (s : SpecSt β) : FilterSt β := ⟨s.spec.flags, s.belief, s.clock⟩
+
+/-- The free instance used by the driver: a belief is the list of step results applied to it. -/
+def traceSem : Sem (List String) :=
+  { prop := fun _ b l => l ++ [match b with
+                                | .copy => "copy" | .fxExo => "fxexo" | .fx => "fx"
+                                | .exoOnly => "exo" | .untouched => "untouched"],
+    corr := fun _ l => l ++ ["full"] }
 
 end BFL.Skip
